@@ -230,6 +230,74 @@ def judge(ctx, focus, p, r, real):
     return goals
 
 
+def float_stream(ctx, focus, n_problems):
+    """real-valued log-probability matrices (log-softmax of random logits): outside the exact-arithmetic model, so no Coq case;
+    the property is checked on the implementation with a rounding tolerance that scales with the sentence length"""
+    rng = ctx.rng
+    for it in range(n_problems):
+        nbest = rng.randint(2, 5) if focus == 'c10' else rng.choice([1, 1, 3])
+        p = A.rand_problem(rng, nmax=5, kmax=5, nbest=nbest, beta=False, pruning=50,
+                           head_left=('mixed' if focus in ('c09', 'c10') and rng.random() < 0.3 else None))
+        K = p.K
+        logits = numpy.array([[rng.gauss(0, 2) for _ in range(K)] for _ in range(p.n)])
+        p.tag = (logits - numpy.log(numpy.exp(logits).sum(axis=1, keepdims=True))).astype(numpy.float32)
+        dl = numpy.array([[rng.gauss(0, 2) for _ in range(p.n + 1)] for _ in range(p.n)])
+        p.dep = (dl - numpy.log(numpy.exp(dl).sum(axis=1, keepdims=True))).astype(numpy.float32)
+        pen = rng.choice([0.0, 0.1, 0.25])
+        r = rt_search_float(p, pen)
+        tol = 2e-5 * (p.n + 2) * 8
+        chart = A.all_derivations(p, [list(range(K))] * p.n, limit=60000)
+        if chart is None:
+            continue
+        comp = A.complete_derivations(p, chart)
+
+        def fscore(d):
+            if d[0] == 'L':
+                return float(p.tag[d[1], d[2]])
+            if d[0] == 'U':
+                return fscore(d[3]) - pen
+            l, r_ = d[4], d[5]
+            h, c = (A.dhead(l), A.dhead(r_)) if d[3] else (A.dhead(r_), A.dhead(l))
+            return fscore(l) + fscore(r_) + float(p.dep[c, h + 1])
+
+        def total(d):
+            return fscore(d) + float(p.dep[A.dhead(d), 0])
+        goals = [with_grammar_flags(p, A.node_deriv(g)) for g in r['goals']]
+        scores = [g['in'] + g['out'] for g in r['goals']]
+        data = {'tag': p.tag.tolist(), 'dep': p.dep.tolist(), 'binary': [[x, y, [[c, h] for c, h in rs]] for (x, y), rs in p.binary.items()],
+                'unary': [[x, list(rs)] for x, rs in p.unary.items()], 'roots': p.roots, 'pen': pen, 'nbest': nbest}
+        ctx.case(('float', tuple(map(tuple, p.tag.tolist())), nbest), nontrivial=len(r['trace']) > p.n)
+        ctx.count('float_stream')
+        allsc = sorted((total(d) for d in comp), reverse=True)
+        head_uniform = len({hl for rs in p.binary.values() for _, hl in rs}) <= 1
+        for i, d in enumerate(goals):
+            if focus in ('c09', 'c10', 'c01') and abs(total(d) - scores[i]) > tol:
+                ctx.fail('score_mismatch_float', f'real-valued scores: reported {scores[i]} but the returned derivation scores {total(d)} (tolerance {tol:.2g})', data)
+        if focus == 'c01' and nbest == 1 and head_uniform:
+            if r['status'] == 0 and allsc and scores[0] < allsc[0] - tol:
+                ctx.fail('suboptimal_float', f'real-valued scores: first parse scores {scores[0]} but a derivation scoring {allsc[0]} exists (tolerance {tol:.2g})', data)
+            if r['status'] != 0 and comp:
+                ctx.fail('false_failure_float', 'real-valued scores: sentence failed although derivations exist', data)
+            pr = [t['in'] + t['out'] for t in r['trace']]
+            if any(b > a + tol for a, b in zip(pr, pr[1:])):
+                ctx.fail('pops_not_monotone_float', 'real-valued scores: pop priorities increase beyond rounding tolerance', data)
+        if focus == 'c10':
+            want_n = min(nbest, len(comp))
+            if len(goals) != want_n:
+                ctx.fail('nbest_count_float', f'real-valued scores: asked for {nbest}, {len(comp)} derivations exist, {len(goals)} returned', data)
+            if len(set(goals)) != len(goals):
+                ctx.fail('nbest_duplicate_float', 'real-valued scores: the same derivation was returned twice', data)
+            if any(b > a + tol for a, b in zip(scores, scores[1:])):
+                ctx.fail('nbest_order_float', f'real-valued scores: not in non-increasing order: {scores}', data)
+            if any(abs(a - b) > tol for a, b in zip(scores, allsc)):
+                ctx.fail('nbest_not_best_float', f'real-valued scores: returned {scores} are not the largest of {allsc[:6]}', data)
+
+
+def rt_search_float(p, pen):
+    return A.rt.search(p.tag, p.dep, p.roots, p.bin_cb, p.un_cb, unary_penalty=pen, beta=1e-5, use_beta=False, pruning_size=50,
+                       nbest=p.nbest, max_step=10000000, trace=True)
+
+
 def run_family(ctx, focus, pfile):
     rng = ctx.rng
     ctx.build([pfile + '.vo'])
@@ -277,6 +345,8 @@ def run_family(ctx, focus, pfile):
         goals = judge(ctx, focus, p, r, real)
         if it < 3:
             ctx.sample({'problem': p.to_json(), 'status': r['status'], 'pops': pops, 'goals': [repr(g) for g in goals][:2]})
+    if focus in ('c01', 'c09', 'c10'):
+        float_stream(ctx, focus, 150 if quick else 3000)
     bad = ctx.coq_cases('trace', A.PRE, cases, chunk=12, describe=lambda i: descr[i])
     ctx.stats['trace_cases'] = len(cases)
     return cases
